@@ -8,10 +8,15 @@ package main
 //  C. release: histories on a puppet node; after a process terminated its name, aliases, events are gone and
 //     claimable, it is in no listing and in no link/monitor relation as target or as requester
 //     (queried through the node's own TargetManager instance).
+//  E. losers and failed registrations leave nothing behind: a process whose RegisterEvent / RegisterName was refused
+//     (name taken) terminates while the owner is alive — the owner keeps its identifier; a meta-process whose Init
+//     fails (error or panic) leaves no alias; afterwards the node's counters of registered names, aliases and events are
+//     back where they were.
 //  D. registration vs termination (K3): node.RegisterName(name, pid) by a third party parked between its steps while
 //     the process is killed and unregistered; afterwards the name must not be held for a dead process.
 
 import (
+	"errors"
 	"fmt"
 	"sort"
 	"strings"
@@ -39,6 +44,7 @@ func runC06(c *Ctx) {
 	c06names(c, k)
 	c06release(c, k)
 	c06regRace(c, k)
+	c06losers(c, k)
 }
 
 // NewK4tm starts a puppet node with an explicit TargetManager instance the harness can query.
@@ -557,5 +563,123 @@ func c06regRace(c *Ctx, k *K4) {
 			k.Quiesce()
 			k.resetPuppets()
 		}
+	}
+}
+
+
+type c06failMeta struct {
+	panics bool
+}
+
+func (m *c06failMeta) Init(process gen.MetaProcess) error {
+	if m.panics {
+		panic("c06: meta init panics")
+	}
+	return errors.New("c06: meta init fails")
+}
+func (m *c06failMeta) Start() error                                                    { return nil }
+func (m *c06failMeta) HandleMessage(from gen.PID, message any) error                   { return nil }
+func (m *c06failMeta) HandleCall(from gen.PID, ref gen.Ref, request any) (any, error) { return nil, nil }
+func (m *c06failMeta) Terminate(reason error)                                          {}
+func (m *c06failMeta) HandleInspect(from gen.PID, item ...string) map[string]string   { return nil }
+
+// c06losers: see part E in the header.
+func c06losers(c *Ctx, k *K4) {
+	r := c.R
+	rounds := c.N(3, 30)
+	for it := 0; it < rounds; it++ {
+		k.Quiesce()
+		base, _ := k.Node.Info()
+		_, opid, _ := k.Spawn("O", true, gen.ProcessOptions{}, "")
+		_, lpid, _ := k.Spawn("L", true, gen.ProcessOptions{}, "")
+		watch, wpid, _ := k.Spawn("W", true, gen.ProcessOptions{}, "")
+		_, qpid, _ := k.Spawn("Q", true, gen.ProcessOptions{}, "")
+		evName := k.NextName("c06lev")
+		ev := gen.Event{Name: evName, Node: k.Name()}
+		nm := k.NextName("c06lname")
+		var tok gen.Ref
+		var e1, e2, e3, e4 error
+		k.Exec(opid, func(p *Puppet) {
+			tok, e1 = p.RegisterEvent(evName, gen.EventOptions{})
+			e2 = p.RegisterName(nm)
+		})
+		k.Exec(wpid, func(p *Puppet) { p.MonitorEvent(ev); p.MonitorProcessID(gen.ProcessID{Name: nm, Node: k.Name()}) })
+		// the loser: both claims are refused
+		k.Exec(lpid, func(p *Puppet) {
+			_, e3 = p.RegisterEvent(evName, gen.EventOptions{})
+			e4 = p.RegisterName(nm)
+		})
+		rp := map[string]interface{}{"history": "O registers event and name; W monitors both; L's RegisterEvent / RegisterName are refused; L terminates; O still owns both"}
+		if e1 != nil || e2 != nil {
+			r.Count("losers.inconclusive")
+		} else {
+			if e3 == nil || e4 == nil {
+				r.Violation("C06/two-owners", fmt.Sprintf("a second process claimed an identifier that is taken: RegisterEvent -> %v, RegisterName -> %v", e3, e4), rp)
+			}
+			how := it % 3
+			switch how {
+			case 0:
+				k.Node.Kill(lpid)
+			case 1:
+				k.Node.Send(lpid, k4stop{gen.TerminateReasonNormal})
+			default:
+				k.Node.Send(lpid, k4stop{errors.New("crash")})
+			}
+			waitUntilGone(k, lpid)
+			k.Quiesce()
+			// the owner still owns both
+			var pubErr error
+			k.Exec(opid, func(p *Puppet) { pubErr = p.SendEvent(evName, tok, c18payload{1}) })
+			if pubErr != nil {
+				r.Violation("C06/loser-took-the-event-down", fmt.Sprintf("after a process whose RegisterEvent had been refused terminated, the owner's SendEvent with its token fails: %v", pubErr), rp)
+			}
+			var qe1, qe2 error
+			k.Exec(qpid, func(p *Puppet) {
+				_, qe1 = p.RegisterEvent(evName, gen.EventOptions{})
+				qe2 = p.RegisterName(nm)
+			})
+			if qe1 == nil || qe2 == nil {
+				r.Violation("C06/two-owners", fmt.Sprintf("while the owner is alive a third process could claim its identifiers after a refused claimant terminated: RegisterEvent -> %v, RegisterName -> %v", qe1, qe2), rp)
+			}
+			for _, e := range watch.Log() {
+				if strings.HasPrefix(e.Kind, "down") {
+					r.Violation("C06/spurious-down", fmt.Sprintf("a monitor of the owner's identifier got %s although the owner is alive and has not unregistered it", e.Kind), rp)
+					break
+				}
+			}
+		}
+		// a meta-process whose Init fails leaves nothing registered
+		var me1, me2 error
+		var a1, a2 gen.Alias
+		k.Exec(opid, func(p *Puppet) {
+			a1, me1 = p.SpawnMeta(&c06failMeta{}, gen.MetaOptions{})
+			a2, me2 = p.SpawnMeta(&c06failMeta{panics: true}, gen.MetaOptions{})
+		})
+		if me1 == nil || me2 == nil {
+			r.Violation("C06/meta-init-failure-ignored", fmt.Sprintf("SpawnMeta with a failing Init returned %v / %v", me1, me2), nil)
+		}
+		for _, a := range []gen.Alias{a1, a2} {
+			if a == (gen.Alias{}) {
+				continue
+			}
+			var le error
+			k.Exec(wpid, func(p *Puppet) { le = p.MonitorAlias(a) })
+			if le == nil {
+				r.Violation("C06/alias-of-failed-meta", fmt.Sprintf("the id %s of a meta-process whose Init failed is still registered: MonitorAlias succeeds", a), nil)
+			}
+		}
+		for _, pid := range []gen.PID{opid, lpid, wpid, qpid} {
+			k.Node.Kill(pid)
+			waitUntilGone(k, pid)
+		}
+		k.Quiesce()
+		k.resetPuppets()
+		after, _ := k.Node.Info()
+		if after.RegisteredNames != base.RegisteredNames || after.RegisteredAliases != base.RegisteredAliases || after.RegisteredEvents != base.RegisteredEvents {
+			r.Violation("C06/registry-leak", fmt.Sprintf("after every process of the round terminated the node counts names/aliases/events %d/%d/%d, before the round %d/%d/%d",
+				after.RegisteredNames, after.RegisteredAliases, after.RegisteredEvents, base.RegisteredNames, base.RegisteredAliases, base.RegisteredEvents), nil)
+		}
+		r.Case(fmt.Sprintf("losers/%d", it), true)
+		r.Count("losers.rounds")
 	}
 }
